@@ -23,7 +23,7 @@ spec fn ps_inv(s: crate::htlc_manager::PaymentState, g: G) -> bool {
 //@ fn htlc_manager::PaymentState::new
 //@ returns r
 //@ implicit [C06]
-//@ ensures#blank_entry [C03,C06,C07]
+//@ ensures#blank_entry [C03,C06,C07,C04,C11]
       ps_inv(r, G { ready_q: Seq::empty(), fail_q: Seq::empty(), held: Seq::empty(), ever_ready_sent: false, via_listener: false, listener_value: None, incoming: 0 })
       && r.trampoline == trampoline && r.resolution is None && !r.is_ready && !r.is_fail_requested
 //@ end
@@ -38,7 +38,7 @@ spec fn ps_inv(s: crate::htlc_manager::PaymentState, g: G) -> bool {
       sum_held(old(g).held) + req.htlc.amount_msat as int <= u64::MAX as int
 //@ ensures#inv [C03,C06,C07,C04,C14,C11]
       ps_inv(*final(self), *final(g))
-//@ ensures#late_htlc_gets_the_recorded_resolution [C07,C06]
+//@ ensures#late_htlc_gets_the_recorded_resolution [C07,C06,C01,C02]
       old(self).resolution is Some ==> (sender.fate() == old(self).resolution && *final(self) == *old(self) && *final(g) == *old(g))
 //@ ensures#held_grows_by_this_htlc [C03,C04,C06,C11]
       old(self).resolution is None ==> (
@@ -71,7 +71,7 @@ spec fn ps_inv(s: crate::htlc_manager::PaymentState, g: G) -> bool {
       ps_inv(*final(self), *final(g))
 //@ ensures#fail_requested [C07,C04,C12]
       final(self).is_fail_requested && !final(self).is_ready
-//@ ensures#first_request_wins [C07]
+//@ ensures#first_request_wins [C07,C12]
       final(g).fail_q == (if old(self).is_fail_requested { old(g).fail_q } else { old(g).fail_q.push(resp) })
 //@ ensures#frame
       final(g).held == old(g).held && final(g).ready_q == old(g).ready_q && final(self).htlcs@ == old(self).htlcs@
